@@ -522,6 +522,12 @@ def slice_dim(f, slicedef, fuzzydim=True):
             newlen = vout.shape[axis]
             newdim = outf.createDimension(dimkey, newlen)
             newdim.setunlimited(unlimited)
+            if not hasattr(vout, 'ncattrs'):
+                # the variable of a file on disk hands out a plain array
+                vout = outf.createVariable(
+                    varkey, var.dtype.char, var.dimensions, values=vout,
+                    **dict([(pk, var.getncattr(pk)) for pk in var.ncattrs()
+                            if pk != '_FillValue']))
             outf.variables[varkey] = vout
 
     history = getattr(outf, 'history', '')
